@@ -213,8 +213,11 @@ Print Assumptions C04_xpoll_within_deadline.
    queue, so a peer that accepts, never answers the login and hangs up before the login's deadline postpones the client's
    action for ever as soon as the device's time-out exceeds the longest reconnect back-off step (60 s; three shipped
    specifications use 100 s).
-   (* OPEN *)  C04_progress for the unsteady case with time-out <= 60 s (the back-off ends the game after a bounded number of
-   re-logins), and the link from pass times to the time-outs the passes request (C04_no_timerless_wait + Model/Xpoll.v). *)
+   The unsteady case is proved below for time-out + latency < 60 s (C04_bounded_time: the back-off table ends the starvation),
+   through the select loop with the passes tied to the time-outs they request.
+   (* OPEN *)  `quiet_for` (nothing new queued on the devices concerned) is a hypothesis on the run, derived only for runs without
+   client input; `dtimely` is an assumption about poll / the scheduler; Hang (the model's loop fuel) is excluded by assuming the
+   run returns Ok. *)
 From PM Require Import Proofs.DeviceMask Proofs.DeviceDeadline Proofs.DeviceDeadlineEx Proofs.DaemonDeadline.
 
 (* D1: one device's share of one pass, head past its deadline: all queued actions complete in this pass, or the expired
@@ -278,6 +281,70 @@ Theorem C04_bounded_time_refuted :
     map (fun a => (a_com a, a_client a, a_stamp a)) (dv_acts d') = [(PM_LOG_IN, 0, Some 3051000000); (PM_POWER_ON, 7, None)].
 Proof. exact deadline_unsteady_refuted. Qed.
 Print Assumptions C04_bounded_time_refuted.
+(* ---------------- bounded time through the select loop (Proofs/DeviceDeadlineBackoff.v, DaemonProgress.v) ----------------
+   dtimely sigma: every pass starts no later than `sigma` after the wake-up the previous pass asked poll for (the time-out it
+   returned; Model/Xpoll.v: the daemon's own arithmetic adds no lateness, so sigma is poll / scheduler latency only);
+   quiet_for id: nothing new is queued on the devices working for client `id` during the run (e.g. no client input at all);
+   dev_ready: 0 < time-out, time-out + sigma < the ceiling of the reconnect back-off table (60 s, regenerated from device.c).
+   Then, WHATEVER the peers do (flapping included), the client is answered - no action of its command queued any more, no
+   command in progress, one terminal line per request line - by the first round whose clock reaches B, where B bounds the
+   potential `pot` of each device that works for the client: a function of the device state alone (head stamp, span of the
+   queue, back-off steps still below the time-out).  C04_bounded_time_explicit gives B in closed form:
+       clock of the first round + (cheap back-off steps left + queue span + 4) * (time-out + sigma). *)
+From PM Require Import Proofs.DeviceDeadlineBackoff Proofs.DeviceDeadlineBackoffEx Proofs.DaemonProgress Proofs.DaemonProgressEx.
+Theorem C04_bounded_time : forall expand_str ranged_sorted ranged_plain sorted rmatch compress short_circuit sigma, 0 <= sigma ->
+  forall id B r rs st st' outs lim t0,
+  DPInv compress st -> NL st -> 1 <= dm_seq st -> dm_seq st + Z.of_nat (length (r :: rs)) <= INT_MAX ->
+  quiet_for expand_str ranged_sorted ranged_plain sorted rmatch compress short_circuit id (r :: rs) st ->
+  drun expand_str ranged_sorted ranged_plain sorted rmatch compress short_circuit st (r :: rs) [] = Ok (st', outs) ->
+  dtimely sigma lim t0 (r :: rs) outs ->
+  (forall j d, nth_error (dm_devs st) j = Some d -> In id (queued d) -> dev_ready sigma lim t0 d /\ pot sigma (r_now r) d <= B) ->
+  B <= last_rclock t0 (r :: rs) ->
+  DPInv compress st' /\ ~ In id (qall (dm_devs st')) /\ answered st' id.
+Proof. exact daemon_bounded_time. Qed.
+Print Assumptions C04_bounded_time.
+Theorem C04_bounded_time_explicit : forall expand_str ranged_sorted ranged_plain sorted rmatch compress short_circuit sigma, 0 <= sigma ->
+  forall id B r rs st st' outs lim t0,
+  DPInv compress st -> NL st -> 1 <= dm_seq st -> dm_seq st + Z.of_nat (length (r :: rs)) <= INT_MAX ->
+  quiet_for expand_str ranged_sorted ranged_plain sorted rmatch compress short_circuit id (r :: rs) st ->
+  drun expand_str ranged_sorted ranged_plain sorted rmatch compress short_circuit st (r :: rs) [] = Ok (st', outs) ->
+  dtimely sigma lim t0 (r :: rs) outs ->
+  (forall j d, nth_error (dm_devs st) j = Some d -> In id (queued d) ->
+     dev_ready sigma lim t0 d /\
+     r_now r + (ncheap (dv_timeout d + sigma) (dv_retry_count d + 1) + Z.of_nat (span (dv_acts d)) + 4) * (dv_timeout d + sigma) <= B) ->
+  B <= last_rclock t0 (r :: rs) ->
+  DPInv compress st' /\ ~ In id (qall (dm_devs st')) /\ answered st' id.
+Proof. exact daemon_bounded_time_explicit. Qed.
+Print Assumptions C04_bounded_time_explicit.
+(* any time-out, rounds need not be timely: devices that stay steady *)
+Theorem C04_bounded_time_steady : forall expand_str ranged_sorted ranged_plain sorted rmatch compress short_circuit sigma, 0 <= sigma ->
+  forall id B r rs st st' outs t0,
+  DPInv compress st -> NL st -> 1 <= dm_seq st -> dm_seq st + Z.of_nat (length (r :: rs)) <= INT_MAX ->
+  quiet_for expand_str ranged_sorted ranged_plain sorted rmatch compress short_circuit id (r :: rs) st ->
+  steady_for expand_str ranged_sorted ranged_plain sorted rmatch compress short_circuit id (fun _ => true) (r :: rs) st ->
+  drun expand_str ranged_sorted ranged_plain sorted rmatch compress short_circuit st (r :: rs) [] = Ok (st', outs) ->
+  dclocks t0 (r :: rs) ->
+  (forall j d, nth_error (dm_devs st) j = Some d -> In id (queued d) -> 0 < dv_timeout d /\ stamps_le t0 (dv_acts d) /\ bound (r_now r) d <= B) ->
+  B <= last_rclock t0 (r :: rs) ->
+  DPInv compress st' /\ ~ In id (qall (dm_devs st')) /\ answered st' id.
+Proof. exact daemon_bounded_time_steady. Qed.
+Print Assumptions C04_bounded_time_steady.
+(* the condition time-out + sigma < 60 s is sharp (F41 refined): with time-out = 60 s, sigma = 0 and perfectly timely passes the
+   flapping peer starves the queue for ever (3001 s: nothing reported); same trace on the real device.c *)
+Theorem C04_bounded_time_60s_refuted :
+  exists d t0 lim p r d' evs,
+    DInvG cp d /\ 0 <= dv_retry_count d /\ 0 < dv_timeout d /\ dv_timeout d + 0 = last backoff_table 0 /\ stamps_le t0 (dv_acts d) /\
+    clocks_from t0 (p :: r) /\ Forall (fun p => tmo_pos (p_tmo p)) (p :: r) /\
+    lim_covers lim d /\ timely_run rm cp false 0 lim (p :: r) d /\
+    passes rm cp false (p :: r) d = Ok (d', evs) /\
+    last_clock t0 (p :: r) = 3001000000 /\
+    queued d = [7] /\ completions evs = [] /\ queued d' = [7] /\
+    map (fun a => (a_com a, a_client a, a_stamp a)) (dv_acts d') = [(PM_LOG_IN, 0, Some 3001000000); (PM_POWER_ON, 7, None)].
+Proof. exact deadline_60s_refuted. Qed.
+Print Assumptions C04_bounded_time_60s_refuted.
+(* non-vacuity of C04_bounded_time: Proofs/DaemonProgressEx.daemon_bounded_time_example (the flapping rounds on the 5 s device,
+   sigma = 1 ms, B = 36.007 s, dtimely established by computation, the conclusion taken through the theorem) *)
+
 (* non-vacuity of D2 / D3: Proofs/DeviceDeadlineEx.deadline_reached_example (passes at 2, 6, 11 s on a silent device: the bound is
    11 s and the theorem yields the completion) and Proofs/DeviceDeadlineDaemonEx.dstep_deadline_example (this file's example daemon
    in the round at 7 s) *)
